@@ -396,6 +396,22 @@ def dangling_element_refs(run, fns, rule='R15', instance='element-ref-after-eras
                             cont = f
                 if cont:
                     bound[v['did']] = (v['name'], cont, n)
+        # references / pointers obtained THROUGH a bound iterator (`auto const& v = it->second;`) point into the same element
+        for n in fn.all_nodes():
+            if n['k'] != 'decl':
+                continue
+            for v in n['vars']:
+                if v.get('did') is None or v.get('init') is None or v['did'] in bound:
+                    continue
+                ty = fn.types[v['t']]
+                if not (ty.rstrip().endswith('&') or ty.rstrip().endswith('*')):
+                    continue
+                i0 = q.strip_casts(v['init'])
+                if ty.rstrip().endswith('*') and not (is_node(i0) and i0['k'] == 'un' and i0['op'] == '&'):
+                    continue
+                via = [x for x in walk(v['init']) if x['k'] == 'ref' and x.get('did') in bound and 'iterator' in fn.types[x['t']] if 't' in x]
+                if via:
+                    bound[v['did']] = (v['name'], bound[via[0]['did']][1], n)
         if not bound:
             continue
         n_refs += len(bound)
@@ -1025,4 +1041,27 @@ def int_products(run, fns, rule='R11', instance='product-evaluated-in-int'):
             run.check(not narrow, rule, instance, '%s: %s' % (q.top_function(run.fx, fn).norm, q.render(fn, m)[:60]), fn.loc(m),
                       'the product %s of two run-time values is evaluated in %s: with factors bounded only by the path MTU (46341 and above) it overflows - undefined behaviour, in practice a negative result (a congestion window that shrinks on every ACK until the transfer stalls)' % (q.render(fn, m)[:60], ty),
                       'evaluated in %s' % ty)
+    return n
+
+
+def stream_writes_within_buffer(run, fns, rule='R13f', instance='write-length-is-buffer-size'):
+    """Every `stream.write(<X>.data(), n)` writes exactly the bytes X holds: n is X.size(). A larger n copies whatever
+    follows the buffer on the heap into the output (a capture file whose bytes depend on the allocator)."""
+    n = 0
+    for fn in fns:
+        for c in fn.calls():
+            if (q.callee_name(c) or '').split('::')[-1] != 'write' or len(c.get('args') or []) != 2:
+                continue
+            src = None
+            for x in walk(c['args'][0]):
+                if x['k'] == 'call' and (q.callee_name(x) or '').split('::')[-1] == 'data' and is_node(x.get('obj')):
+                    src = q.render(fn, x['obj'])
+            if not src:
+                continue
+            n += 1
+            run.touch(fn)
+            ln = q.render(fn, q.strip_casts(c['args'][1]))
+            run.check(ln.replace('(', '').replace(')', '') == src + '.size', rule, instance, '%s: write(%s.data(), %s)' % (q.top_function(run.fx, fn).norm, src, ln[:30]), fn.loc(c),
+                      'the stream is written %s bytes from %s.data(), not %s.size(): when the count is larger the output contains whatever lies behind the buffer in memory' % (ln[:40], src, src),
+                      'length is %s.size()' % src)
     return n
